@@ -1,6 +1,7 @@
-/* Harnesses for src/rfc1055.c (C12). */
-#ifndef SL_NMAX
-#define SL_NMAX 16
+/* Harnesses for src/rfc1055.c (C12).  Ghost state and drivers:
+ * stubs/rfc1055_io.h. */
+#ifndef SL_LMAX
+#define SL_LMAX 4096
 #endif
 
 /* a Source / Sink over the stub drivers, octet or chunk kind */
@@ -13,21 +14,49 @@
   if (kindsel) octet_sink_init(&snk, sl_octet_sink, SL_SNK_DRIVER); \
   else chunk_sink_init(&snk, sl_chunk_sink, SL_SNK_DRIVER);
 
-/* arbitrary sink-side ghost state */
+/* arbitrary sink-side ghost state; acceptor off */
 #define SL_SINK_STATE() \
   IN(size_t, in_snk_pos) IN(size_t, in_obs) IN(uint8_t, in_snk_val) IN(int, in_snk_err) IN(size_t, in_snk_nneg) \
   IN(size_t, in_budget) \
   ASSUME(in_budget <= 1); \
   g_sl_snk_pos = in_snk_pos; g_sl_obs = in_obs; g_sl_snk_val = in_snk_val; g_sl_snk_err = in_snk_err; \
-  g_sl_snk_nneg = in_snk_nneg; g_sl_snk_budget = in_budget;
+  g_sl_snk_nneg = in_snk_nneg; g_sl_snk_budget = in_budget; g_ac_on = 0;
 
-/* arbitrary source stream of in_len <= maxlen octets, position in_pos <= in_len */
+/* ... and an acceptor in an arbitrary consistent state, on or off, over a
+ * payload of at most maxn octets */
+#define SL_ACCEPTOR_STATE(maxn) \
+  IN(_Bool, in_ac_on) IN(_Bool, in_ac_sof) IN(_Bool, in_ac_closed) IN(_Bool, in_ac_bad) \
+  IN(size_t, in_ac_n) IN(size_t, in_ac_i) IN(size_t, in_ac_s) \
+  ASSUME(in_ac_n <= (maxn) && in_ac_i <= in_ac_n && in_ac_s <= 1); \
+  IN_MEM(in_ac_pay, in_ac_n) \
+  ASSUME(IMPLIES(in_ac_s == 1, in_ac_i < in_ac_n && SLIP_SPECIAL(in_ac_pay[in_ac_i < in_ac_n ? in_ac_i : 0]))); \
+  g_ac_on = in_ac_on; g_ac_sof = in_ac_sof; g_ac_closed = in_ac_closed; g_ac_bad = in_ac_bad; \
+  g_ac_pay = in_ac_pay; g_ac_n = in_ac_n; g_ac_i = in_ac_i; g_ac_s = in_ac_s;
+
+/* arbitrary array-mode source stream of in_len <= maxlen octets, position
+ * in_pos <= in_len */
 #define SL_SOURCE_STATE(maxlen) \
-  IN(size_t, in_len) IN(size_t, in_pos) IN(int, in_src_err) IN(size_t, in_src_nneg) \
+  IN(size_t, in_len) IN(size_t, in_pos) IN(int, in_src_err) IN(size_t, in_src_nneg) IN(uint8_t, in_src_last) \
   ASSUME(in_len <= (maxlen) && in_pos <= in_len); \
   IN_MEM(in_stream, in_len) \
+  g_gn_on = 0; \
   g_sl_src = in_stream; g_sl_src_len = in_len; g_sl_src_pos = in_pos; g_sl_src_err = in_src_err; \
-  g_sl_src_nneg = in_src_nneg;
+  g_sl_src_nneg = in_src_nneg; g_sl_src_last = in_src_last;
+
+/* ... or (in_gn_on) a generator over a payload of at most maxn octets behind
+ * at most maxg octets of garbage, with its cursor in an arbitrary consistent
+ * place */
+#define SL_GENERATOR_STATE(maxn, maxg) \
+  IN(_Bool, in_gn_on) IN(_Bool, in_gn_skip) IN(_Bool, in_gn_start) IN(_Bool, in_gn_done) \
+  IN(size_t, in_gn_n) IN(size_t, in_gn_g) IN(size_t, in_gn_c) IN(size_t, in_gn_i) IN(size_t, in_gn_s) \
+  ASSUME(in_gn_n <= (maxn) && in_gn_g <= (maxg)); \
+  IN_MEM(in_gn_pay, in_gn_n) \
+  g_gn_on = in_gn_on; g_gn_skip = in_gn_skip; g_gn_start = in_gn_start; g_gn_done = in_gn_done; \
+  g_gn_pay = in_gn_pay; g_gn_n = in_gn_n; g_gn_g = in_gn_g; g_gn_c = in_gn_c; g_gn_i = in_gn_i; g_gn_s = in_gn_s; \
+  ASSUME(in_gn_c <= SL_GN_PRE && in_gn_i <= in_gn_n && in_gn_s <= 1); \
+  ASSUME(IMPLIES(in_gn_s == 1, in_gn_i < in_gn_n && SLIP_SPECIAL(in_gn_pay[in_gn_i < in_gn_n ? in_gn_i : 0]))); \
+  ASSUME(IMPLIES(in_gn_c < SL_GN_PRE, in_gn_i == 0 && in_gn_s == 0 && !in_gn_done)); \
+  ASSUME(IMPLIES(in_gn_done, in_gn_i == in_gn_n && in_gn_s == 0));
 
 /* the reference macros themselves: the image of an octet never contains the
  * delimiter, has the stated length, and unescaping inverts escaping */
@@ -41,6 +70,47 @@ void h_slip_spec(void)
   CHECK(IMPLIES(SLIP_ESCLEN(in_d) == 1, SLIP_IMG(in_d, 0) == in_d && in_d != SLIP_ESC), "plain octets are sent as themselves");
   CHECK(SLIP_WORST(3, 0) == 7 && SLIP_WORST(3, 1) == 8 && RFC1055_WORST_CASE(3, false) == 7 && RFC1055_WORST_CASE(3, true) == 8,
         "worst case is 2n+1 (2n+2 with start-of-frame)");
+  VERIF_CANARY();
+}
+
+/* Lemma: the generator (source side) and the acceptor (sink side) are the
+ * same reference encoding: whatever the generator produces for a payload in
+ * start-of-frame or classic framing, octet by octet, the acceptor accepts,
+ * and it is closed exactly when the generator is done.  (Closes the loop
+ * "encode emits what the acceptor accepts" / "decode reads what the generator
+ * produces".)  Loop invariant, any payload length. */
+void h_lemma_generator_acceptor(void)
+{
+  IN(_Bool, in_sof) IN(size_t, in_n)
+  ASSUME(in_n <= SL_LMAX);
+  IN_MEM(in_pay, in_n)
+  g_sl_snk_pos = 0; g_sl_obs = 0; g_sl_snk_val = 0; g_sl_snk_nneg = 0; g_sl_snk_budget = 0; g_sl_snk_err = 0;
+  g_sl_src_pos = 0; g_sl_src_nneg = 0; g_sl_src_err = 0; g_sl_src_last = 0; g_sl_src = in_pay; g_sl_src_len = 0;
+  g_gn_on = 1; g_gn_skip = 0; g_gn_g = 0; g_gn_start = in_sof; g_gn_done = 0;
+  g_gn_pay = in_pay; g_gn_n = in_n; g_gn_c = 0; g_gn_i = 0; g_gn_s = 0;
+  g_ac_on = 1; g_ac_sof = in_sof; g_ac_closed = 0; g_ac_bad = 0; g_ac_pay = in_pay; g_ac_n = in_n; g_ac_i = 0; g_ac_s = 0;
+  while (!g_gn_done)
+  __CPROVER_assigns(g_sl_src_pos, g_sl_src_last, g_gn_c, g_gn_i, g_gn_s, g_gn_done,
+                    g_sl_snk_pos, g_sl_snk_val, g_ac_sof, g_ac_closed, g_ac_bad, g_ac_i, g_ac_s)
+  __CPROVER_loop_invariant(g_gn_c <= SL_GN_PRE && g_gn_i <= g_gn_n && g_gn_s <= 1)
+  __CPROVER_loop_invariant(IMPLIES(g_gn_s == 1, g_gn_i < g_gn_n && SLIP_SPECIAL(in_pay[g_gn_i < g_gn_n ? g_gn_i : 0])))
+  __CPROVER_loop_invariant(IMPLIES(g_gn_c < SL_GN_PRE, g_gn_i == 0 && g_gn_s == 0 && !g_gn_done))
+  __CPROVER_loop_invariant(IMPLIES(g_gn_done, g_gn_i == g_gn_n && g_gn_s == 0))
+  __CPROVER_loop_invariant(!g_ac_bad)
+  __CPROVER_loop_invariant(g_ac_closed == g_gn_done)
+  __CPROVER_loop_invariant(g_ac_i == g_gn_i && g_ac_s == g_gn_s)
+  __CPROVER_loop_invariant(g_ac_sof == (g_gn_c < SL_GN_PRE))
+  __CPROVER_loop_invariant(g_sl_snk_pos == g_sl_src_pos && g_sl_src_pos <= g_gn_c + 2 * g_gn_i + g_gn_s + (g_gn_done ? 1 : 0))
+  __CPROVER_decreases((SL_GN_PRE - g_gn_c) + 2 * (g_gn_n - g_gn_i) - g_gn_s + (g_gn_done ? 0 : 1))
+  {
+    unsigned char c = 0;
+    const int rc = sl_source_step(&c, 1, 0);
+    CHECK(rc == 1, "the generator delivers an octet until it is done");
+    sl_sink_take(c);
+  }
+  CHECK(!g_ac_bad && g_ac_closed && g_ac_i == in_n && g_ac_s == 0 && !g_ac_sof,
+        "the acceptor accepts exactly what the generator produces");
+  CHECK(g_sl_src_pos <= SLIP_WORST(in_n, in_sof), "the reference encoding is at most 2n+1 (+1) octets long");
   VERIF_CANARY();
 }
 
@@ -77,6 +147,7 @@ void h_rfc1055_open(void)
   IN(uint32_t, in_flags) IN(int, in_state) IN(_Bool, in_kind)
   ASSUME(in_state >= 0 && in_state <= 2);
   SL_SINK_STATE()
+  SL_ACCEPTOR_STATE(4)
   SL_MAKE_SINK(snk, in_kind)
   RFC1055Context ctx;
   ctx.state = in_state; ctx.flags = in_flags;
@@ -88,15 +159,25 @@ void h_rfc1055_close(void)
 {
   IN(_Bool, in_kind)
   SL_SINK_STATE()
+  SL_ACCEPTOR_STATE(4)
   SL_MAKE_SINK(snk, in_kind)
   rfc1055_close(&snk);
   VERIF_CANARY();
 }
 
+/* the two sink kinds are checked by separate targets (SL_SINK_KIND 1 = octet
+ * sink behind sink_adapt, 0 = chunk sink), the kind being a constant keeps
+ * the unwound retry loops of sink_put_chunk small */
 void h_rfc1055_encode_octet(void)
 {
-  IN(_Bool, in_kind) IN(uint8_t, in_d)
+#ifdef SL_SINK_KIND
+  const _Bool in_kind = SL_SINK_KIND;
+#else
+  IN(_Bool, in_kind)
+#endif
+  IN(uint8_t, in_d)
   SL_SINK_STATE()
+  SL_ACCEPTOR_STATE(4)
   SL_MAKE_SINK(snk, in_kind)
   rfc1055_encode_octet(&snk, in_d);
   VERIF_CANARY();
@@ -106,6 +187,7 @@ void h_rfc1055_decode_octet(void)
 {
   IN(_Bool, in_kind) IN(uint8_t, in_d0)
   SL_SOURCE_STATE(4)
+  SL_GENERATOR_STATE(4, 4)
   SL_MAKE_SOURCE(src, in_kind)
   unsigned char d = in_d0;
   rfc1055_decode_octet(&src, &d);
@@ -116,6 +198,7 @@ void h_transition(void)
 {
   IN(_Bool, in_kind)
   SL_SOURCE_STATE(4)
+  SL_GENERATOR_STATE(4, 4)
   SL_MAKE_SOURCE(src, in_kind)
   transition(&src);
   VERIF_CANARY();
@@ -147,32 +230,18 @@ void h_lemma_octet_roundtrip(void)
 /* ------------------------------------------------------------------------ */
 /* frame level */
 
-const size_t *g_sl_off;
-_Bool g_sl_fm;
-const unsigned char *g_sl_pay;
-size_t g_sl_n, g_sl_g;
-
-/* offset map: unconstrained in proof mode (the contract's requires pins it),
- * computed from the reference definition natively */
-#if VERIF_IS_NATIVE
-#define SL_OFFSETS(off, P, n) \
-  size_t *off = (size_t *)verif_alloc_exact("ghost_off", ((n) + 1) * sizeof(size_t)); \
-  (void)spec_slip_offsets((P), (n), off);
-#else
-#define SL_OFFSETS(off, P, n) \
-  size_t *off = malloc(((n) + 1) * sizeof(size_t)); ASSUME(off != NULL);
-#endif
-
+/* encode: arbitrary payload (the rest of an array-mode source stream), any
+ * flags, error injection at every driver call; with in_ac_on the sink
+ * compares what it receives with the reference encoding of that payload */
 void h_rfc1055_encode(void)
 {
   GHOST_HAVOC();
-  IN(_Bool, in_skind) IN(_Bool, in_kkind) IN(uint32_t, in_flags) IN(int, in_state)
+  IN(_Bool, in_skind) IN(_Bool, in_kkind) IN(uint32_t, in_flags) IN(int, in_state) IN(_Bool, in_ac_on)
   ASSUME(in_state >= 0 && in_state <= 2);
   SL_SINK_STATE()
-  SL_SOURCE_STATE(SL_NMAX + 4)
-  ASSUME(in_len - in_pos <= SL_NMAX);
-  SL_OFFSETS(off, in_stream + in_pos, in_len - in_pos)
-  g_sl_off = off;
+  SL_SOURCE_STATE(SL_LMAX)
+  g_ac_on = in_ac_on; g_ac_pay = in_stream + in_pos; g_ac_n = in_len - in_pos;
+  g_ac_sof = (in_flags & RFC1055_WITH_SOF) != 0; g_ac_i = 0; g_ac_s = 0; g_ac_closed = 0; g_ac_bad = 0;
   SL_MAKE_SOURCE(src, in_skind)
   SL_MAKE_SINK(snk, in_kkind)
   RFC1055Context ctx;
@@ -181,53 +250,63 @@ void h_rfc1055_encode(void)
   VERIF_CANARY();
 }
 
-/* decode: arbitrary stream / state / flags; with in_fm the stream is
- * additionally laid out as garbage, delimiters and the encoding of in_pay */
+/* decode: arbitrary array-mode stream, or a generated stream (reference
+ * encoding of a payload behind garbage / delimiters) with the generator in an
+ * arbitrary consistent place; any state, any flags, error injection at every
+ * driver call */
 void h_rfc1055_decode(void)
 {
   GHOST_HAVOC();
   IN(_Bool, in_skind) IN(_Bool, in_kkind) IN(uint32_t, in_flags) IN(int, in_state)
-  IN(_Bool, in_fm) IN(size_t, in_n) IN(size_t, in_g)
   ASSUME(in_state >= 0 && in_state <= 2);
-  ASSUME(in_n <= SL_NMAX && in_g <= SL_NMAX);
-#ifdef SL_DECODE_ONLY_FM
-  ASSUME(in_fm == SL_DECODE_ONLY_FM);
-#endif
   SL_SINK_STATE()
-  SL_SOURCE_STATE(3 * SL_NMAX + 8)
-  IN_MEM(in_pay, in_n)
-  SL_OFFSETS(off, in_pay, in_n)
-#if VERIF_IS_NATIVE
-  if (in_fm) {
-    /* build the stream the frame-mode precondition describes: the octets in
-     * front of in_pos are kept, then garbage (taken from the input, END
-     * replaced), delimiters, the reference encoding, two more octets */
-    const int sof = (in_flags & 1u) != 0;
-    if (in_state == RFC1055_SEARCH_FOR_START && !sof) verif_spurious("classic mode is never in SEARCH_FOR_START");
-    const size_t skip = in_state == RFC1055_SEARCH_FOR_END ? in_g + 1 : 0;
-    const size_t start = (sof && in_state != RFC1055_NORMAL) ? 1 : 0;
-    const size_t total = in_pos + skip + start + off[in_n] + 1 + 2;
-    unsigned char *s = verif_alloc_exact("ghost_stream", total);
-    size_t o = 0;
-    for (size_t i = 0; i < in_pos; i++) s[o++] = in_stream[i];
-    if (skip) {
-      for (size_t j = 0; j < in_g; j++) {
-        unsigned char c = (in_pos + j < in_len) ? in_stream[in_pos + j] : (unsigned char)(0x11u + j);
-        s[o++] = (c == SLIP_END) ? 0x00 : c;
-      }
-      s[o++] = SLIP_END;
-    }
-    if (start) s[o++] = SLIP_END;
-    o += spec_slip_encode(in_pay, in_n, s + o);
-    s[o++] = 0x42; s[o++] = SLIP_END;
-    g_sl_src = s; g_sl_src_len = total;
-  }
-#endif
-  g_sl_fm = in_fm; g_sl_n = in_n; g_sl_g = in_g; g_sl_pay = in_pay; g_sl_off = off;
+  SL_SOURCE_STATE(SL_LMAX)
+  SL_GENERATOR_STATE(SL_LMAX, SL_LMAX)
   SL_MAKE_SOURCE(src, in_skind)
   SL_MAKE_SINK(snk, in_kkind)
   RFC1055Context ctx;
   ctx.state = in_state; ctx.flags = in_flags;
   rfc1055_decode(&ctx, &src, &snk);
+  VERIF_CANARY();
+}
+
+/* Lemma (concatenation / resynchronisation step, over the contract of
+ * rfc1055_decode): after a call that consumed a delimiter as its last octet
+ * the decoder is in the state in which a generated frame (with its start
+ * delimiter in start-of-frame mode) is accepted by the frame-level clause of
+ * the same contract; i.e. post-state of one decode == pre-state of the next. */
+void h_lemma_decode_twice(void)
+{
+  GHOST_HAVOC();
+  IN(_Bool, in_skind) IN(_Bool, in_kkind) IN(uint32_t, in_flags) IN(int, in_state)
+  ASSUME(in_state >= 0 && in_state <= 2);
+  SL_SINK_STATE()
+  SL_SOURCE_STATE(SL_LMAX)
+  SL_GENERATOR_STATE(SL_LMAX, SL_LMAX)
+  SL_MAKE_SOURCE(src, in_skind)
+  SL_MAKE_SINK(snk, in_kkind)
+  RFC1055Context ctx;
+  ctx.state = in_state; ctx.flags = in_flags;
+  const _Bool sof = (in_flags & RFC1055_WITH_SOF) != 0;
+  /* first call: anything (arbitrary stream or generator anywhere) */
+  const size_t p0 = g_sl_src_pos;
+  const int rc1 = rfc1055_decode(&ctx, &src, &snk);
+  const _Bool resync = g_sl_src_pos != p0 && g_sl_src_last == SLIP_END && !(rc1 < 0 && rc1 == g_sl_src_err && rc1 == -EILSEQ);
+  /* second call: a fresh generated frame, laid out for the state the first
+   * call left behind */
+  IN(size_t, in_n2)
+  ASSUME(in_n2 <= SL_LMAX);
+  IN_MEM(in_pay2, in_n2)
+  g_gn_on = 1; g_gn_pay = in_pay2; g_gn_n = in_n2; g_gn_g = 0; g_gn_c = 0; g_gn_i = 0; g_gn_s = 0; g_gn_done = 0;
+  g_gn_skip = 0; g_gn_start = sof && ctx.state != RFC1055_NORMAL;
+  const size_t q1 = g_sl_snk_pos, sn1 = g_sl_src_nneg, kn1 = g_sl_snk_nneg;
+  ASSUME(resync);
+  CHECK(ctx.state != RFC1055_SEARCH_FOR_END, "after a consumed delimiter the decoder is not skipping");
+  g_sl_obs = q1 + g_k;
+  const int rc2 = rfc1055_decode(&ctx, &src, &snk);
+  CHECK(IMPLIES(g_sl_src_nneg == sn1 && g_sl_snk_nneg == kn1, rc2 == 1 && g_sl_snk_pos - q1 == in_n2),
+        "the frame after a delimiter is delivered completely");
+  CHECK(IMPLIES(g_k < g_sl_snk_pos - q1 && g_k < in_n2, g_sl_snk_val == in_pay2[g_k < in_n2 ? g_k : 0]),
+        "... and intact");
   VERIF_CANARY();
 }
